@@ -1,6 +1,7 @@
 package main
 
 import (
+	"fmt"
 	"go/token"
 	"go/types"
 	"sort"
@@ -664,4 +665,191 @@ func decideRef(c *Ctx, decide func(fn *ssa.Function, at ssa.Instruction, start, 
 		return false, fnName(caller)
 	}
 	return decide(caller, call, s, e, depth)
+}
+
+func init() {
+	register(&Rule{
+		Name:   "EMPTY-MEANS-BOTH",
+		ZeroOK: true,
+		Doc:    "a postings list is empty only when it has neither a bitmap nor a 1-hit (the 1-hit encoding keeps no bitmap): a method of PostingsList that leaves early because `postings == nil` - the nil edge of the test leads straight to a return - does so only where the 1-hit marker is known to be zero (tested first, in the same condition, or through a predicate such as is1Hit()). Otherwise every 1-hit list - every _id term of a merged segment - is treated as empty",
+		Run: func(c *Ctx, scope string, r *Report) {
+			for _, fn := range c.srcFns {
+				if fn.Signature.Recv() == nil || fn.Parent() != nil {
+					continue
+				}
+				rn := namedOf(fn.Signature.Recv().Type())
+				if rn == nil || rn.Obj().Name() != "PostingsList" {
+					continue
+				}
+				recvName := accessPath(fn.Params[0])
+				facts := edgePathFacts(fn)
+				n := 0
+				for _, f := range facts {
+					if f.nonzero || f.path != "*"+recvName+".postings" {
+						continue
+					}
+					// the nil edge leads straight to a return (through empty jumps)
+					blk := f.edge
+					steps := 0
+					for steps < 3 {
+						if _, isJump := blk.Instrs[len(blk.Instrs)-1].(*ssa.Jump); isJump && len(blk.Instrs) == 1 {
+							blk = blk.Succs[0]
+							steps++
+							continue
+						}
+						break
+					}
+					if _, isRet := blk.Instrs[len(blk.Instrs)-1].(*ssa.Return); !isRet || len(blk.Instrs) > 4 {
+						continue
+					}
+					n++
+					key := fmt.Sprintf("%s/early-exit#%d", fnName(fn), n)
+					if pathKnown(fn, "*"+recvName+".normBits1Hit", false, f.edge) {
+						r.ok(key, fnName(fn), c.pos(blk.Instrs[len(blk.Instrs)-1].Pos()), "leaves early for a missing bitmap only where the 1-hit marker is known to be zero")
+					} else {
+						r.bad(key, fnName(fn), c.pos(blk.Instrs[len(blk.Instrs)-1].Pos()), "returns early because the list has no bitmap without having looked at the 1-hit marker: a 1-hit list (no bitmap by construction) is treated as empty")
+					}
+				}
+			}
+		},
+	})
+}
+
+func init() {
+	register(&Rule{
+		Name:   "EMPTY-VS-NIL",
+		ZeroOK: true,
+		Doc:    "a slice field whose nil-ness is tested as \"nothing yet\" (`x.f == nil` in a condition that does not also accept a zero length) is reset to nil, not re-sliced to `f[:0]`: a buffer kept for reuse is empty but not nil, so after the first use the test can never say \"nothing yet\" again (the first term of the next field is then taken for a repetition of nothing). A re-slice that is immediately appended to (the update `f = append(f[:0], v...)`) is not a reset",
+		Run: func(c *Ctx, scope string, r *Report) {
+			type fieldKey struct {
+				owner string
+				name  string
+			}
+			keyOf := func(fa *ssa.FieldAddr) (fieldKey, bool) {
+				owner, f := fieldAddrInfo(fa)
+				if f == nil {
+					return fieldKey{}, false
+				}
+				if _, isSlice := f.Type().Underlying().(*types.Slice); !isSlice {
+					return fieldKey{}, false
+				}
+				on := ""
+				if owner != nil {
+					on = owner.Obj().Name()
+				}
+				return fieldKey{on, f.Name()}, true
+			}
+			// fields whose nil-ness carries meaning: the nil test stands beside a test of the
+			// field's CONTENT in one condition (`!bytes.Equal(x.f, cur) || x.f == nil`): nil says
+			// "nothing to compare with yet"
+			meaningful := map[fieldKey]string{}
+			fieldOfLoad := func(v ssa.Value) (fieldKey, bool) {
+				ld, ok := v.(*ssa.UnOp)
+				if !ok || ld.Op != token.MUL {
+					return fieldKey{}, false
+				}
+				fa, ok := ld.X.(*ssa.FieldAddr)
+				if !ok {
+					return fieldKey{}, false
+				}
+				return keyOf(fa)
+			}
+			for _, fn := range c.srcFns {
+				// one condition written with || / && is several If blocks that share a successor
+				for _, target := range fn.Blocks {
+					var atoms []condFact
+					for _, b := range target.Preds {
+						ifi, ok := b.Instrs[len(b.Instrs)-1].(*ssa.If)
+						if !ok {
+							continue
+						}
+						atoms = append(atoms, condFacts(ifi.Cond, true, 0)...)
+						atoms = append(atoms, condFacts(ifi.Cond, false, 0)...)
+					}
+					if len(atoms) == 0 {
+						continue
+					}
+					nilOf := map[fieldKey]token.Pos{}
+					contentOf := map[fieldKey]bool{}
+					for _, a := range atoms {
+						switch x := a.cond.(type) {
+						case *ssa.BinOp:
+							v, o := x.X, x.Y
+							if isNilConst(v) {
+								v, o = o, v
+							}
+							if k, ok := fieldOfLoad(v); ok && isNilConst(o) && (x.Op == token.EQL || x.Op == token.NEQ) {
+								nilOf[k] = x.Pos()
+							}
+						case *ssa.Call:
+							if _, isBuiltin := x.Call.Value.(*ssa.Builtin); isBuiltin {
+								continue
+							}
+							for _, arg := range x.Call.Args {
+								if k, ok := fieldOfLoad(arg); ok {
+									contentOf[k] = true
+								}
+							}
+						}
+					}
+					for k, pos := range nilOf {
+						if contentOf[k] {
+							meaningful[k] = c.pos(pos) + " in " + fnName(fn)
+						}
+					}
+				}
+			}
+			for _, fn := range c.srcFns {
+				for _, b := range fn.Blocks {
+					for _, ins := range b.Instrs {
+						st, ok := ins.(*ssa.Store)
+						if !ok {
+							continue
+						}
+						fa, ok := st.Addr.(*ssa.FieldAddr)
+						if !ok {
+							continue
+						}
+						k, ok := keyOf(fa)
+						if !ok || meaningful[k] == "" {
+							continue
+						}
+						sl, ok := st.Val.(*ssa.Slice)
+						if !ok || sl.High == nil {
+							continue
+						}
+						if hk, ok := sl.High.(*ssa.Const); !ok || hk.Value == nil || hk.Value.String() != "0" {
+							continue
+						}
+						src, ok := sl.X.(*ssa.UnOp)
+						if !ok || src.Op != token.MUL {
+							continue
+						}
+						if sfa, ok := src.X.(*ssa.FieldAddr); !ok || sfa.Field != fa.Field || accessPath(sfa.X) != accessPath(fa.X) {
+							continue
+						}
+						// the update idiom: a later store of append(...) to the same field in this block
+						update := false
+						for _, later := range b.Instrs[instrIndex(st)+1:] {
+							if ls, ok := later.(*ssa.Store); ok {
+								if lfa, ok := ls.Addr.(*ssa.FieldAddr); ok && lfa.Field == fa.Field && accessPath(lfa.X) == accessPath(fa.X) {
+									if call, ok := ls.Val.(*ssa.Call); ok {
+										if bi, ok := call.Call.Value.(*ssa.Builtin); ok && bi.Name() == "append" {
+											update = true
+										}
+									}
+								}
+							}
+						}
+						key := fnName(fn) + "/reset:" + k.name
+						if update {
+							r.ok(key, fnName(fn), c.pos(st.Pos()), "re-sliced and appended to at once: an update, not a reset")
+						} else {
+							r.bad(key, fnName(fn), c.pos(st.Pos()), "."+k.name+" is reset to an empty, non-nil slice, but its nil-ness is what says \"nothing yet\" (tested at "+meaningful[k]+", with no zero-length alternative): after the first use the test never fires again")
+						}
+					}
+				}
+			}
+		},
+	})
 }
